@@ -1,5 +1,5 @@
 (* GENERATED on every run by harness/vlib/py2coq.py (symbolic execution of the Python source). Do not edit.
-   sources: /var/tmp/seed/C02-6/wt/commonroad/common/util.py sha1=0f7c26f92d2c, /var/tmp/seed/C02-6/wt/commonroad/common/validity.py sha1=19c7673a0ed3 *)
+   sources: /repo/commonroad/common/util.py sha1=0f7c26f92d2c, /repo/commonroad/common/validity.py sha1=19c7673a0ed3 *)
 From Coq Require Import QArith Qround ZArith Bool List Qminmax.
 From CR Require Import Base.QMod Model.Interval.
 Open Scope Q_scope.
